@@ -108,15 +108,60 @@ def py_round(x, ndigits=None):
     return np_round(x, ndigits)
 
 
+SQRT = z3.Function("pyvc_sqrt", z3.RealSort(), z3.RealSort())
+RNDI = z3.Function("pyvc_round_int", z3.RealSort(), z3.IntSort())  # round_to(x, 0) as a whole number
+
+
+def sqrt_axiom(arg):
+    s = SQRT(arg)
+    return z3.Implies(arg >= 0, z3.And(s >= 0, s * s == arg))
+
+
 def np_sqrt(x):
-    _use("numpy.sqrt(x) for x >= 0: the s >= 0 with s*s = x")
+    _use("numpy.sqrt(x) for x >= 0: the s >= 0 with s*s = x (an uninterpreted function; the axiom is instantiated at every application occurring in a VC)")
     if not isinstance(x, V):
         return math.sqrt(x)
-    s = z3.Real(fresh_name("sqrt"))
+    s = SQRT(real(x.t))
     v = x.like(s, nan=_or(x.nan, real(x.t) < 0), inf=x.inf)
     v.meta = ("sqrt", x.t, s)
-    CUR.ctx.assume(z3.Implies(real(x.t) >= 0, z3.And(s >= 0, s * s == real(x.t))))
+    CUR.ctx.assume(sqrt_axiom(real(x.t)))
     return v
+
+
+def axiom_instances(formulas):
+    """instances of the axioms of the axiomatised theory functions (sqrt) at every application occurring in the formulas"""
+    seen, out, stack = set(), [], list(formulas)
+    while stack:
+        t = stack.pop()
+        if t.get_id() in seen:
+            continue
+        seen.add(t.get_id())
+        if z3.is_quantifier(t):
+            stack.append(t.body())
+            continue
+        if z3.is_app(t):
+            if t.decl().name() == "pyvc_sqrt" and not _has_var(t):
+                out.append(sqrt_axiom(t.arg(0)))
+            if t.decl().name() == "round_to" and not _has_var(t) and z3.is_int_value(t.arg(1)) and t.arg(1).as_long() == 0:
+                # consequences of round-half-even to whole numbers (sound, not the full definition)
+                x = t.arg(0)
+                out.append(z3.And(z3.IsInt(t), t == z3.ToReal(RNDI(x)), t <= x + z3.RealVal("1/2"), t >= x - z3.RealVal("1/2"), z3.Implies(z3.IsInt(x), t == x)))
+            stack.extend(t.children())
+    return out
+
+
+def _has_var(t):
+    stack, seen = [t], set()
+    while stack:
+        x = stack.pop()
+        if x.get_id() in seen:
+            continue
+        seen.add(x.get_id())
+        if z3.is_var(x):
+            return True
+        if z3.is_app(x):
+            stack.extend(x.children())
+    return False
 
 
 def np_power(x, p):
